@@ -400,8 +400,11 @@ class Ctx:
               "coverage": cov, "assumptions": self.assumptions, "wall_s": round(wall, 1),
               "violations": len(self.violations)}
         if not self.replay_path:
-            os.makedirs(os.path.join(VERIF, "evidence"), exist_ok=True)
-            with open(os.path.join(VERIF, "evidence", self.id + ".json"), "w") as fh:
+            # VERIF_EVIDENCE_DIR: runs against a scratch copy of gonum (tools/seedtest) must not
+            # overwrite the evidence of the real tree
+            evdir = os.environ.get("VERIF_EVIDENCE_DIR") or os.path.join(VERIF, "evidence")
+            os.makedirs(evdir, exist_ok=True)
+            with open(os.path.join(evdir, self.id + ".json"), "w") as fh:
                 json.dump(ev, fh, indent=1)
         for k in self.known_hits:
             print("KNOWN-FINDING: property=%s %s" % (self.id, k["what"]))
